@@ -744,6 +744,16 @@ def run_ext(ctx, quick):
     ctx.cov["evaluations"] = ctx.cov.get("evaluations", 0) + acc["evals"]
     ctx.cov["distinct_nontrivial"] = ctx.cov.get("distinct_nontrivial", 0) + len(acc["nontriv"])
     ctx.cov["traces_validated_against_impl"] = ctx.cov.get("traces_validated_against_impl", 0) + acc["evals"]
+    ctx.assumptions += [
+        "extension H: every caller of qlfqueue / qdqueue is a qthread task running on a worker (hazard slots and retired lists are the "
+        "worker's); for plain pthreads the hzptr_list path of hazardptrs.c is defective (CQueues/HazardExt.v scan_x_ignores_external, "
+        "docs/proposed_fixes/C15-hazardptrs-external-threads.diff; harness mode XP reproduces crash, protection loss and a duplicate)",
+        "extension H: LfqReclaim.v's pool is the harness arena (LIFO free list, else next unused address); qpool's per-thread caches "
+        "hand out addresses in another order, the theorems hold for every order only in so far as they quantify over schedules, not pools"]
+    ctx.notes += [
+        "qlfqueue_empty() is not linearizable once node addresses are re-used (lfqr_empty_never_empty_refuted, machine-checked witness); "
+        "the C15 clause about emptiness holds for every schedule (lfqr_empty_sound); qlfqueue_dequeue loads next_ptr->value from a "
+        "possibly freed node, result discarded (lfqr_value_read_uaf_refuted): docs/proposed_fixes/C15-lfq-dequeue-revalidate.diff"]
     mismatches, rejects = acc["mismatches"], acc["rejects"]
     broken = bool(mismatches) or not pr["ok"]
     if broken:
